@@ -583,8 +583,9 @@ func edgeDistance(ij, uv float64) s1.ChordAngle {
 
 	// We can compute the distance QR as (1 - OQ) where O is the sphere origin,
 	// and we can compute OQ^2 = 1 - PQ^2 using the Pythagorean theorem.
-	// (This calculation loses accuracy as angle POQ approaches Pi/2.)
-	qr := 1 - math.Sqrt(1-pq2)
+	// (This calculation loses accuracy as angle POQ approaches Pi/2. There PQ^2
+	// can round to slightly more than 1, hence the clamp.)
+	qr := 1 - math.Sqrt(math.Max(0, 1-pq2))
 	return s1.ChordAngleFromSquaredLength(pq2 + qr*qr)
 }
 
